@@ -102,6 +102,7 @@ func c03Object(k int, cfgs []c03PropCfg, structName string) *gen.Shape {
 			d := fmt.Sprint(40 + i)
 			p.Default = &d
 		}
+		p.EmptyDef = structName == "P14"
 		s.Props = append(s.Props, p)
 	}
 	return s
@@ -347,9 +348,16 @@ func runC03(c *wk.Ctx) {
 					nDisabled++
 				}
 			}
-			for _, structName := range []string{"", "P10"} {
-				if structName != "" && idx%2 == 1 {
+			anyDefault := false
+			for _, cf := range cfgs {
+				anyDefault = anyDefault || cf.hasDef
+			}
+			for _, structName := range []string{"", "P10", "P14"} {
+				if structName == "P10" && idx%2 == 1 {
 					structName = "*P10"
+				}
+				if structName == "P14" && anyDefault {
+					continue // treat-empty-as-default next to a non-zero default has no consistent reading
 				}
 				shape := c03Object(sp.k, cfgs, structName)
 				t, ok, _ := buildGuarded(shape)
@@ -377,7 +385,10 @@ func runC03(c *wk.Ctx) {
 				judgeUnserialize(c, "C03", t, shape, env, in, descr, "enumerated presence space")
 				// native side: the same subset as a native value, without defaulting
 				var native any = gen.CopyRaw(raw)
-				if structName != "" {
+				if structName == "P14" {
+					native = gen.P14{A: vals["a"], B: vals["b"], C: vals["c"]}
+					c.Count("enumerated-objects:treat-empty-as-default struct")
+				} else if structName != "" {
 					native = p10Native(vals, structName == "*P10")
 				}
 				c03NativeForm(c, t, shape, env, native, descr)
